@@ -346,6 +346,21 @@ def hierarchy_programs():
             inner = ["try", [echo("t;"), ["throw", ["new", cls, lit("m")]], echo("never")], catches, [echo(";f")]]
             main = [["try", [inner, echo(";after")], [["Exception", None, [echo(";outer")]]], [echo(";F")]]]
             out.append({"classes": classes, "ifaces": ifaces, "funcs": [], "main": main})
+    # interface-extends chains 2-5 hops long (J5 -> J4 -> J3 -> J2 -> J1), the long chain as the first, the last and the
+    # only parent of a wider interface, implemented by the class itself / its parent; catch by the top, the middle, each hop
+    ifaces = [["J1", []], ["J2", ["J1"]], ["J3", ["J2"]], ["J4", ["J3"]], ["J5", ["J4"]], ["S", []],
+              ["W1", ["S", "J4"]], ["W2", ["J3", "S"]], ["W3", ["W1"]]]
+    classes = [["C5", "Exception", ["J5"]], ["C4", "Exception", ["J4"]], ["C3", "Exception", ["J3"]], ["C2", "Exception", ["J2"]],
+               ["CW1", "Exception", ["W1"]], ["CW2", "Exception", ["W2"]], ["CW3", "Exception", ["W3"]], ["CS", "Exception", ["S"]],
+               ["D5", "C5", []], ["DW3", "CW3", ["S"]]]
+    thrown = ["C5", "C4", "C3", "C2", "CW1", "CW2", "CW3", "CS", "D5", "DW3"]
+    orders = [["J1"], ["J2", "J1"], ["J3", "Exception"], ["J5", "J4", "J3", "J2", "J1"], ["W1", "J1"], ["S|J1", "Exception"], ["J4", "S"]]
+    for cls in thrown:
+        for order in orders:
+            catches = [[ty, "e", [echo("<%s>" % ty), ["echo", ["class", var("e")]], ["ifinst", "e", "J1", [echo("+J1")], [echo("-J1")]]]] for ty in order]
+            inner = ["try", [echo("t;"), ["throw", ["new", cls, lit("m")]], echo("never")], catches, [echo(";f")]]
+            main = [["try", [inner, echo(";after")], [["Exception", None, [echo(";outer")]]], [echo(";F")]]]
+            out.append({"classes": classes, "ifaces": ifaces, "funcs": [], "main": main})
     return out
 
 
@@ -357,8 +372,10 @@ class Gen5(G.Gen):
         super().__init__(rng)
         r = rng
         self.ifaces = []
-        for i in range(r.randint(0, 3)):
+        for i in range(r.randint(0, 5)):
             ext = [x[0] for x in self.ifaces if r.random() < 0.4]
+            if self.ifaces and r.random() < 0.5 and self.ifaces[-1][0] not in ext:
+                ext.append(self.ifaces[-1][0])                      # chains: the previous interface is a parent
             self.ifaces.append(["I%d" % i, ext])
         self.classes = []
         for i in range(r.randint(1, 5)):
@@ -454,6 +471,205 @@ class Gen5(G.Gen):
 
 
 # ----------------------------------------------------------------------------- the command line
+# ----------------------------------------------------------------------------- long histories (engine only)
+def long_history_probes(quick):
+    """"first matching catch" and "finally once" must hold on the 1000th throw as on the first: loops of 600-1200
+    iterations around a throwing function, method, static method, closure, a method with its own try/finally, and a
+    three-frame-deep thrower; iteration i throws E2 (i % 3 == 0), E1 (i % 3 == 1) or returns; each iteration echoes the
+    clause that handled it and a finally mark; a final normal call follows.  The expected output is computed by
+    repetition: every iteration behaves as the first of its residue class.  Methods are outside the Coq AST, so this
+    family is compared with that expected text only."""
+    decl = ("class E1 extends Exception {}\nclass E2 extends E1 {}\n"
+            "function f($i) { if ($i % 3 == 0) { throw new E2(\"a\"); } if ($i % 3 == 1) { throw new E1(\"b\"); } return $i; }\n"
+            "function deep($i, $k) { if ($k > 0) { return deep($i, $k - 1); } return f($i); }\n"
+            "class M { public $u = 0;\n  function m($i) { $this->u++; return f($i); }\n  static function s($i) { return f($i); }\n"
+            "  function own($i) { if ($i % 3 == 0) { throw new E2(\"a\"); } if ($i % 3 == 1) { throw new E1(\"b\"); } return $i; }\n"
+            "  function guarded($i) { try { return $this->own($i); } catch (E2 $e) { return -1; } finally { $this->u += 1000; } } }\n"
+            "$o = new M();\n$cl = function ($i) { return f($i); };\n")
+    loop = ("for ($i = 0; $i < %d; $i++) {\n  try { $r = %s; echo \"r\"; } catch (E2 $e) { echo \"2\"; } catch (E1 $e) { echo \"1\"; } "
+            "catch (Exception $e) { echo \"X:\", get_class($e), \":\", $e->getMessage(); } finally { echo \".\"; }\n}\necho \"|\", %s;\n")
+    tok = {0: "2.", 1: "1.", 2: "r."}
+    calls = [("function", "f($i)", "f(2)", tok), ("method", "$o->m($i)", "$o->m(2)", tok), ("static", "M::s($i)", "M::s(2)", tok),
+             ("closure", "$cl($i)", "$cl(2)", tok), ("deep", "deep($i, 3)", "deep(2, 3)", tok), ("own", "$o->own($i)", "$o->own(2)", tok),
+             ("guarded", "$o->guarded($i)", "$o->guarded(2)", {0: "r.", 1: "1.", 2: "r."})]
+    out = []
+    for n in ((600, 1200) if quick else (600, 900, 1200, 2400)):
+        for name, call, final, t in calls:
+            src = "<?php\n" + decl + loop % (n, call, final)
+            out.append(("%s:%d" % (name, n), src, "".join(t[i % 3] for i in range(n)) + "|2"))
+    return out
+
+
+# ----------------------------------------------------------------------------- malformed try/catch headers (CLI)
+class _Bad(Exception):
+    pass
+
+
+class _Thrown(Exception):
+    def __init__(self, cls):
+        self.cls = cls
+
+
+MUT_PARENT = {"E1": "Exception", "E2": "E1", "E3": "Exception", "Exception": None}
+
+
+def _mut_parse(toks):
+    """recogniser for the mini-language of the templates: echo STRING ; | throw new NAME ( STRING ) ; | try ... | { ... }
+    returns (ast, has_bare_block); raises _Bad when the token list is not a program"""
+    pos = [0]
+    bare = [False]
+    def peek():
+        return toks[pos[0]] if pos[0] < len(toks) else None
+    def eat(t=None):
+        x = peek()
+        if x is None or (t is not None and x != t):
+            raise _Bad()
+        pos[0] += 1
+        return x
+    def name():
+        x = eat()
+        if not (x[0].isalpha() and x not in ("try", "catch", "finally", "echo", "throw", "new")):
+            raise _Bad()
+        return x
+    def block():
+        eat("{")
+        b = []
+        while peek() != "}":
+            b.append(stmt())
+        eat("}")
+        return b
+    def stmt():
+        x = peek()
+        if x == "echo":
+            eat()
+            v = eat()
+            if not v.startswith('"'):
+                raise _Bad()
+            eat(";")
+            return ("echo", v.strip('"'))
+        if x == "throw":
+            eat(); eat("new"); c = name(); eat("("); v = eat()
+            if not v.startswith('"'):
+                raise _Bad()
+            eat(")"); eat(";")
+            return ("throw", c)
+        if x == "{":
+            bare[0] = True
+            return ("block", block())
+        if x == "try":
+            eat()
+            b = block()
+            cs = []
+            while peek() == "catch":
+                eat(); eat("(")
+                tys = [name()]
+                while peek() == "|":
+                    eat(); tys.append(name())
+                if peek() is not None and peek().startswith("$"):
+                    eat()
+                eat(")")
+                cs.append((tys, block()))
+            f = None
+            if peek() == "finally":
+                eat(); f = block()
+            if not cs and f is None:
+                raise _Bad()
+            return ("try", b, cs, f)
+        raise _Bad()
+    prog = []
+    while peek() is not None:
+        prog.append(stmt())
+    return prog, bare[0]
+
+
+def _mut_run(prog):
+    """reference behaviour of a program of the mini-language: (stdout, uncaught?)"""
+    out = []
+    def isa(c, t):
+        while c is not None:
+            if c == t:
+                return True
+            c = MUT_PARENT.get(c)
+        return t == "Throwable"
+    def run(b):
+        for st in b:
+            if st[0] == "echo":
+                out.append(st[1])
+            elif st[0] == "throw":
+                raise _Thrown(st[1])
+            elif st[0] == "block":
+                run(st[1])
+            else:
+                _, body, cs, f = st
+                try:
+                    try:
+                        run(body)
+                    except _Thrown as t:
+                        for tys, cb in cs:
+                            if any(isa(t.cls, ty) for ty in tys):
+                                run(cb)
+                                break
+                        else:
+                            raise
+                finally:
+                    if f is not None:
+                        run(f)
+    try:
+        run(prog)
+        return "".join(out), False
+    except _Thrown:
+        return "".join(out), True
+
+
+MUT_TEMPLATES = [
+    'echo "a;" ; try { echo "t;" ; throw new E2 ( "m" ) ; } catch ( E3 $e ) { echo "c0;" ; } catch ( E1 $e ) { echo "c1;" ; } catch ( E2 | Exception $x ) { echo "c2;" ; } finally { echo "f;" ; } echo "z;" ;',
+    'echo "a;" ; try { echo "t;" ; } catch ( E1 $e ) { echo "c1;" ; } echo "z;" ;',
+    'echo "a;" ; try { throw new E3 ( "m" ) ; } catch ( E1 | E2 $e ) { echo "c1;" ; } finally { echo "f;" ; } echo "z;" ;',
+    'echo "a;" ; try { try { throw new E1 ( "m" ) ; } catch ( E2 $e ) { echo "in;" ; } finally { echo "f1;" ; } } catch ( Exception ) { echo "out;" ; } finally { echo "f2;" ; } echo "z;" ;',
+    'try { echo "t;" ; throw new E2 ( "m" ) ; } finally { echo "f;" ; }',
+]
+MUT_HEADER = {"try", "catch", "finally", "{", "}", "(", ")", "|"}
+MUT_DECL = "<?php\nclass E1 extends Exception {}\nclass E2 extends E1 {}\nclass E3 extends Exception {}\n"
+
+
+def malformed_header_cases():
+    """(label, source, verdicts): from each valid template, delete every single token of the try/catch/finally headers (keywords,
+    parentheses, type names, `|`, the variable, the braces) and cut the file at every token boundary inside the try statement.
+    A mutant that is no longer a program must be a parse error (non-zero exit, nothing run); one that still is a program must
+    behave as that program (the mini reference interpreter above); a mutant whose only doubt is a bare `{ }` block may do either."""
+    out = []
+    seen = set()
+    for ti, tpl in enumerate(MUT_TEMPLATES):
+        toks = tpl.split(" ")
+        first = toks.index("try")
+        last = max(i for i, t in enumerate(toks) if t == "}")           # the try statement ends at its last brace
+        muts = []
+        for i, t in enumerate(toks):
+            if i < first or i > last:
+                continue
+            hdr = t in MUT_HEADER or t.startswith("$") or (t[0].isupper() and toks[i - 1] != "new")
+            if t in ("(", ")") and (toks[i - 1] == "E1" or toks[i - 1] == "E2" or toks[i - 1] == "E3") and toks[i - 2] == "new":
+                hdr = False                                  # the parentheses of `new E ( "m" )` are not header tokens
+            if t == ")" and toks[i - 1].startswith('"'):
+                hdr = False
+            if hdr:
+                muts.append(("del%d" % i, toks[:i] + toks[i + 1:]))
+            muts.append(("cut%d" % i, toks[:i + 1]))
+        for lab, mt in muts:
+            key = " ".join(mt)
+            if key in seen or key == tpl:
+                continue
+            seen.add(key)
+            try:
+                ast, bare = _mut_parse(mt)
+                so, unc = _mut_run(ast)
+                verdicts = [(1 if unc else 3, so)] + ([(0, "")] if bare else [])
+            except _Bad:
+                verdicts = [(0, "")]
+            out.append(("t%d:%s" % (ti, lab), MUT_DECL + " ".join(mt) + "\n", verdicts))
+    return out
+
+
 def cli_cases():
     """(kind, arg, source, expected stdout): kind 0 parse error, 1 uncaught, 2 exit(arg), 3 normal end"""
     out = []
@@ -628,6 +844,22 @@ def main(ck):
         else:
             ck.violation("impl-vs-spec:" + famkey, replay)
 
+    # ---- long histories: engine only, expected text computed by repetition
+    longs = [] if ck.replay and not (json.load(open(ck.replay)).get("case") or {}).get("long_history") else long_history_probes(ck.tier == "quick")
+    if ck.replay and longs:
+        longs = [x for x in longs if x[0] == json.load(open(ck.replay))["case"]["long_history"]]
+    if longs:
+        lsrcs, lres = G.run_impl(binary, None, ck, srcs=[x[1] for x in longs])
+        for (name, src, exp), o in zip(longs, lres):
+            if o.get("outcome") != "ok" or o.get("out") != exp:
+                got = o.get("out") or ""
+                k = next((i for i in range(min(len(got), len(exp))) if got[i] != exp[i]), min(len(got), len(exp)))
+                ck.violation("long-history:%s" % name.split(":")[0],
+                             {"case": {"long_history": name}, "php": src, "impl_out": {"outcome": o.get("outcome"), "detail": o.get("detail"),
+                              "out_around_first_difference": got[max(0, k - 30):k + 80], "first_difference_at": k, "expected_there": exp[max(0, k - 30):k + 30]},
+                              "clause": "first matching catch / finally once, after a long history of throws (every iteration behaves as the first)"})
+    ck.cov["long_history_probes"] = len(longs)
+
     # ---- the command line, real subprocesses
     cli = []
     cli_res = []
@@ -637,9 +869,19 @@ def main(ck):
             ck.broken.append("origami-build")
         else:
             cli = cli_cases()
+            # malformed try/catch/finally headers: the verdict list of a mutant is resolved after the run (a mutant that is
+            # still a program only through a bare block may also be refused)
+            cli += [(ver, 0, src, None) for _lab, src, ver in malformed_header_cases()]
             if ck.replay:
                 cli = [tuple(json.load(open(ck.replay))["case"]["cli"])]
             cli_res = run_cli(obin, cli, ck)
+            for j, ((kind, arg, src, exp), r) in enumerate(zip(cli, cli_res)):
+                if isinstance(kind, list):
+                    pick = kind[0]
+                    for k2, e2 in kind:
+                        if k2 == 0 and r["code"] != 0 and r["stdout"] == "":
+                            pick = (k2, e2)
+                    cli[j] = (pick[0], arg, src, pick[1])
             cterms = []
             for (kind, arg, src, exp), r in zip(cli, cli_res):
                 kept = exp is None or r["stdout"] == exp
